@@ -29,12 +29,15 @@ def run(ctx):
     c11.r114(ctx)
     c11.r116(ctx)
     c11.r119(ctx, 'R3.10')
+    c11.r1110(ctx, 'R3.14')
     from . import c01
     c01.r11(ctx)
     r38(ctx, core)
     r39(ctx)
     r311(ctx, core)
     r313(ctx, core)
+    r315(ctx, core)
+    r316(ctx, core, comp)
     from . import c01 as _c01
     _c01.r110(ctx, 'R3.12')
     m = ctx.repo['cencoding']
@@ -317,7 +320,8 @@ def r311(ctx, core, rule='R3.11'):
     f = core.func('read_data_page_v2')
     cfg = CFG(f)
     alias = [st for st in iter_child_stmts(f.body) if isinstance(st, ast.Assign) and isinstance(st.targets[0], ast.Name)
-             and isinstance(st.value, ast.Attribute) and st.value.attr == '_mask']
+             and ((isinstance(st.value, ast.Attribute) and st.value.attr == '_mask') or
+                  (isinstance(st.value, ast.Subscript) and isinstance(st.value.value, ast.Attribute) and st.value.value.attr == '_mask'))]
     ctx.ob(rule, 'core.read_data_page_v2:levels-decoded-into-the-output-mask', len(alias) == 1,
            str([norm(a) for a in alias]), core.loc(f))
     if len(alias) != 1:
@@ -388,3 +392,64 @@ def r313(ctx, core, rule='R3.13'):
         ctx.ob(rule, 'core.read_data_page_v2:marker-written-wherever-values-are-scattered:%s' % norm(s_.targets[0])[:60], ok,
                detail if not ok else 'marker store under the same conditions', core.loc(s_))
     ctx.floor(rule, 'scatter sites needing a marker', n, 5)
+
+
+def r315(ctx, core, rule='R3.15'):
+    """a page reader writes only its page's window of the column's output: every use of the output array (or of its
+    mask) in read_data_page_v2 is a slice starting at the running offset (`num`, or idx[0] for repeated columns);
+    the bare array may only be asked for its dtype or unwrapped to its data part"""
+    f = core.func('read_data_page_v2')
+    parents = {}
+    for n in ast.walk(f):
+        for c in ast.iter_child_nodes(n):
+            parents[id(c)] = n
+    n_sites = 0
+    for n in walk_no_nested(f):
+        base = None
+        if isinstance(n, ast.Name) and n.id == 'assign' and isinstance(n.ctx, ast.Load):
+            base = n
+            par = parents.get(id(n))
+            if isinstance(par, ast.Attribute) and par.attr in ('_mask',):
+                base = par
+                par = parents.get(id(par))
+            elif isinstance(par, ast.Attribute):
+                continue          # .dtype, ._data: metadata / unwrapping
+            n_sites += 1
+            ok = isinstance(par, ast.Subscript) and par.value is base and isinstance(par.slice, ast.Slice) and par.slice.lower is not None \
+                and norm(par.slice.lower) in ('num', 'idx[0]')
+            ctx.ob(rule, 'core.read_data_page_v2:output-used-through-the-page-window:%s' % norm(par)[:50], ok,
+                   '`%s`: the whole-column array (or mask) reaches a decoder / index expression without the page offset; every '
+                   'page after the first then reads or writes the first page\'s rows' % norm(par)[:80], core.loc(n))
+    ctx.floor(rule, 'uses of the output array in read_data_page_v2', n_sites, 15)
+
+
+def r316(ctx, core, comp, rule='R3.16'):
+    """decompress_data returns whatever the codec returns (an ndarray only for the decompress-into codecs; LZ4 gives
+    a buffer object): a result that is sliced or indexed must first be wrapped as an array"""
+    into = set(module_table(ctx.repo, 'compression', 'decom_into').keys()) if False else None
+    n = 0
+    for q, f in core.funcs.items():
+        raw = {}
+        for st in walk_no_nested(f):
+            if isinstance(st, ast.Assign) and len(st.targets) == 1 and isinstance(st.targets[0], ast.Name) \
+                    and isinstance(st.value, ast.Call) and (callee(st.value) or '').endswith('decompress_data'):
+                raw.setdefault(st.targets[0].id, []).append(st)
+        if not raw:
+            continue
+        cfg = CFG(f)
+        rd = ReachingDefs(cfg)
+        for x in walk_no_nested(f):
+            if isinstance(x, ast.Subscript) and isinstance(x.value, ast.Name) and x.value.id in raw and isinstance(x.ctx, ast.Load):
+                # does the raw (unwrapped) definition reach this use?
+                nid = None
+                for nd in cfg.nodes:
+                    if nd.stmt is not None and any(y is x for y in ast.walk(nd.stmt)) and not isinstance(nd.stmt, (ast.If, ast.For, ast.While, ast.Try, ast.With)):
+                        nid = nd.id
+                if nid is None:
+                    continue
+                n += 1
+                reach = rd.defs_reaching(nid, x.value.id)
+                bad = [d for d in reach if any(cfg.nodes[d].stmt is r for r in raw[x.value.id])]
+                ctx.ob(rule, 'core.%s:decompressed-bytes-wrapped-before-slicing:%s' % (q, norm(x)[:40]), not bad,
+                       '`%s` slices the direct result of decompress_data, which for LZ4/LZO is not an array' % norm(x), core.loc(x))
+    ctx.stat('%s slices of names bound to decompress_data results' % rule, n)
